@@ -4,14 +4,14 @@
    Compile/SeqIf.lean; with b = false the theorem is unconditional. -/
 import JanetModel.Compile.SeqCallN
 import JanetModel.Compile.SeqPush
-import JanetModel.Compile.SeqShape
+import JanetModel.Compile.SeqShapeM
 namespace JanetModel.Compile
 open JanetModel.Emit JanetModel.Lang JanetModel.Bytecode.Exec JanetModel.Gen.Bytecode
 
-/-- the source map stays as long as the code across a compiled form of the fragment (compile-only, from `tf_shape`) -/
+/-- the source map stays as long as the code across a compiled form of the fragment (compile-only, from `tf_shapeM`) -/
 theorem tf_ML (G : String → Prop) (b w : Bool) (fuel : Nat) : MLAt G (TF G b) w fuel := by
   intro _ e opts c c' slot sc rs pool ps env nb ht hh hs hp htop hT hE hc hm
-  obtain ⟨⟨ra', ns, more, seg, segm, hc', _, _, hl⟩, _⟩ := tf_shape G b fuel e opts c c' slot sc rs pool ps ht hh hs hp htop hT hE.lkl hc
+  obtain ⟨⟨ra', ns, more, seg, segm, hc', _, _, hl⟩, _⟩ := tf_shapeM G b fuel e opts c c' slot sc rs pool ps ht hh hs hp htop hm hT hE.lkl hc
   rw [hc']
   simp only [List.length_append]
   omega
@@ -21,7 +21,7 @@ variable (p : Program) (f0 : Frame) (rest : List Frame) (V : Array Value) (P : L
 
 /-- what the `if` case has to deliver, given the induction hypothesis at the fuel of the sub-forms -/
 def IfCase (G : String → Prop) (b : Bool) (fuel : Nat) : Prop :=
-  ∀ (cnd tb : Expr) (els : List Expr) (pp : Pos), IsCall cnd → els.length ≤ 1 → TF G b cnd → TF G b tb → (∀ e, e ∈ els → TF G b e) →
+  ∀ (cnd tb : Expr) (els : List Expr) (pp : Pos), CondOK cnd → els.length ≤ 1 → TF G b cnd → TF G b tb → (∀ e, e ∈ els → TF G b e) →
   ∀ (opts : Fopts) (c c' : CState) (slot : JSlot) (sc : Scope) (rs : List Scope) (pool : List KConst) (ps : List (List KConst))
     (n : Nat) (cur : Pos) (env env' : Env) (s s' : SS) (v : Value),
     opts.tail = false → opts.hint = none → c.scopes = sc :: rs → c.pools = pool :: ps → c.lim ≤ 240 → sc.top = false →
